@@ -9,10 +9,12 @@ TOKENS = [
     # Twp/Rge in all spellings and fragments of them
     "T154N-R97W", "T155N-R97W", "Township 154 North, Range 97 West", "Twp. 154 N., Rge. 97 W.", "154N-97W", "t1s-r2e",
     "T154N", "R97W", "T154-R97", "T154N-R97", "T154-R97W", "154-97", "T 154 N", "Range 97 West", "Township", "Range", "T", "R",
-    "TIS4N-R97W", "T1S4N-R9TW", "T2N-R2W", "N2 W2", "T154N-R97W of the 5th P.M.", "5th P.M.", "Principal Meridian", "P.M.",
+    "TIS4N-R97W", "T1S4N-R9TW", "T1o4N-R97W", "Ti54N-R9oW", "tl5sN-rI7w", "T|54N-R97W", "T15]N-R97W", "T2N-R2W", "N2 W2", "T154N-R97W of the 5th P.M.", "5th P.M.", "Principal Meridian", "P.M.",
     # sections
     "Sec", "Sec.", "Section", "Sections", "Secs", "§", "Sec 14", "Section 14", "Sec 14:", "Sec. 15:", "Sections 1 - 3", "Sec 1, 2 and 3:",
     "Sec 5 through Sec 2", "Secs 14 & 15", "§ 36", "Section 100", "Sec 0", "of Section 14", "in Section 15", "said Section 14", "within Sec 2",
+    # digits that are not ASCII (PDF / OCR text): they are digits to the patterns
+    "Sec １４", "Section ٣:", "Lot ２", "T１５４N-R９７W", "Lots １ - ３",
     # zero and zero-padded bounds
     "Sec 0 - 3", "Sec 00 through 02", "Sections 3 - 0", "Sec 00", "Lots 0 - 2", "Lot 00", "Lot 0", "Lots 2 - 0", "Secs. 1 - 3", "Sects. 9 thru 7",
     # lots
